@@ -102,6 +102,7 @@ structure Actor where
   pend : Pend := .none
   stallArmed : Bool := false
   lastBytes : Nat := 0
+  inCall : Option Nat := none    -- gid of the logger whose public call this actor is parked in
   deriving Inhabited
 
 structure Cfg where
